@@ -96,7 +96,11 @@ TUpdateP ==
            g1   == GenUpdate(s.v, s.st, PeriodicData(Ev.pat, WModSmall(Ev.off, Len(Ev.pat)), lead))
            off1 == WAddNat(Ev.off, lead)
            n1   == WSub(Ev.n, WOfNat(lead))
-           rest == SubSeq(Ev.st.ck, 2, s.v.ckLen)
+           \* bytes 2 and 3 of a three-byte checksum: stepped by TLC for segments below 4 MiB, otherwise taken from
+           \* the observation (their joint cycle is too long for a period map; DESIGN.md 3.3)
+           rest == IF s.v.ckLen = 3 /\ n1[1] < 64 /\ n1 # WZero /\ ~WLe(MaxGenLen, g1.len)
+                   THEN SubSeq(CkStepped(s.v, g1.ck, Ev.pat, WModSmall(off1, Len(Ev.pat)), WNat(n1)), 2, 3)
+                   ELSE SubSeq(Ev.st.ck, 2, s.v.ckLen)
            new  == IF n1 = WZero THEN g1
                    ELSE IF WLe(MaxGenLen, g1.len) THEN g1
                    ELSE GenUpdatePeriodicWide(s.v, g1, Ev.pat, off1, n1, rest)
